@@ -56,6 +56,8 @@ type vfMuxCfg struct {
 	fstall   int   // index of the pipe flush that never returns (-1: none)
 	werr     int   // index of the pipe write that fails (-1: none)
 	oneway   bool  // callers use Oneway instead of Request
+	wdelayK  int  // the write with this index takes wdelayMS of virtual time before it completes (-1: none)
+	wdelayMS int
 	pad      int  // size of every frame body the peer sends (0: as small as it gets)
 	tviaHeader bool // the timeout is set through the _timeout request header
 	malformed bool // the sequence contains a frame that is not well-formed
@@ -64,7 +66,7 @@ type vfMuxCfg struct {
 
 func vfParseMuxCfg(s string) vfMuxCfg {
 	// "n=2,k=3,t=1/5"
-	c := vfMuxCfg{n: 2, k: 3, wstall: -1, fstall: -1, werr: -1}
+	c := vfMuxCfg{n: 2, k: 3, wstall: -1, fstall: -1, werr: -1, wdelayK: -1}
 	for _, kv := range strings.Split(s, ",") {
 		p := strings.SplitN(kv, "=", 2)
 		if len(p) != 2 {
@@ -85,6 +87,12 @@ func vfParseMuxCfg(s string) vfMuxCfg {
 			c.oneway = p[1] == "oneway"
 		case "burst":
 			c.burst = p[1] == "1"
+		case "wd":
+			kv := strings.SplitN(p[1], ":", 2)
+			c.wdelayK, _ = strconv.Atoi(kv[0])
+			if len(kv) == 2 {
+				c.wdelayMS, _ = strconv.Atoi(kv[1])
+			}
 		case "pad":
 			c.pad, _ = strconv.Atoi(p[1])
 		case "tvia":
@@ -200,9 +208,13 @@ func vfMuxMake(scn string) (func(), func(*vsched.Exec) (string, *vsched.Violatio
 				return nil
 			}
 		}
-		if cfg.wstall >= 0 || cfg.werr >= 0 {
+		if cfg.wstall >= 0 || cfg.werr >= 0 || cfg.wdelayK >= 0 {
 			p.onWrite = func(p *vfPipe, b []byte) error {
 				nw++
+				if nw-1 == cfg.wdelayK {
+					// a congested peer: this write takes a while, then goes through
+					vsched.Sleep(int64(cfg.wdelayMS) * int64(time.Millisecond))
+				}
 				if nw-1 == cfg.werr {
 					return thrift.NewTTransportException(thrift.UNKNOWN_TRANSPORT_EXCEPTION, "injected write failure")
 				}
@@ -314,7 +326,7 @@ func vfMuxMake(scn string) (func(), func(*vsched.Exec) (string, *vsched.Violatio
 			return out, first
 		}
 		if e.Status == vsched.Horizon {
-			viol("C13/livelock", "step horizon exceeded")
+			viol(vfPropOr("C13")+"/livelock", "step horizon exceeded: some thread spins without making progress")
 			return out, first
 		}
 		bl := e.Blocked()
@@ -453,6 +465,10 @@ func init() {
 				out = append(out, "n=2,t=1/5,call=oneway,"+fault+"f=")
 			}
 			out = append(out, "n=2,t=1/5,call=oneway,f=1.u")
+			// a write that takes part of the timeout and then completes: silent peer, late peer
+			for _, f := range []string{"", "1"} {
+				out = append(out, "n=1,t=5,wd=0:3,f="+f, "n=2,t=5/5,wd=1:3,f="+f)
+			}
 			// frame bodies at and around the sizes at which buffers fill up
 			for _, pad := range []int{4095, 4096, 4097, 8192} {
 				for _, f := range []string{"1", "2.1"} {
